@@ -325,7 +325,7 @@ Settle(st) ==
     IN Go(st, {b \in B : st.s.cl[b] /\ st.s.loop[b] /\ Reach(st.s, b)})
 
 \* ---------------------------------------------------------------- events
-Ev0 == [a |-> "Init", op |-> 0, t |-> 0, x |-> 0, pl |-> <<>>, ord |-> <<>>, bord |-> <<>>]
+Ev0 == [a |-> "Init", op |-> 0, t |-> 0, x |-> 0, pl |-> <<>>, ord |-> <<>>, bord |-> <<>>, k |-> <<>>]
 
 NewOp(s, rec) == [s EXCEPT !.ops = Append(@, rec)]
 OpBase == [kind |-> "", st |-> "resolving", pl |-> <<>>, acks |-> 1, foe |-> TRUE, topics |-> <<>>, i |-> 1, res |-> <<>>,
@@ -359,9 +359,13 @@ DoTimeout(st, e) ==
                      IN Fire(Settle(st2), k + 1)
     IN Fire(St([s EXCEPT !.epoch = @ + 1], st.out, <<>>), 1)
 
+\* What a request looks like on the wire.  Requests written to one connection within the same reactor event by
+\* different operations have no order the model could know (it depends on the order in which timers of the same
+\* instant fire): an Answer event may therefore name the request the broker answered (e.k); <<>> means the oldest.
+Desc(q) == <<q.kind, q.tps, q.topics>>
 Possible(s, e) ==
     CASE e.a \in {"CallMeta", "CallProduce", "CallCommit"} -> TRUE
-      [] e.a = "Answer"   -> s.inbox[e.t] # <<>>
+      [] e.a = "Answer"   -> s.inbox[e.t] # <<>> /\ (e.k # <<>> => \E i \in DOMAIN s.inbox[e.t] : Desc(s.reqs[s.inbox[e.t][i]]) = e.k)
       [] e.a = "Timeout"  -> \E r \in DOMAIN s.reqs : s.reqs[r].live
       [] e.a = "Drop"     -> s.conn[e.t] /\ s.cl[e.t]
       [] e.a = "Down"     -> s.up[e.t]
@@ -403,9 +407,13 @@ Step(s, e) ==
               ELSE fin(St(s1, NoOut, <<[k |-> "commit", op |-> op]>>))
       [] e.a = "Answer" ->
            \* the broker behind target t answers the oldest request it holds, from the cluster's state
-           LET t == e.t r == Head(s.inbox[t]) q == s.reqs[r]
+           LET t == e.t
+               pos == IF e.k = <<>> THEN 1
+                      ELSE CHOOSE i \in DOMAIN s.inbox[t] : Desc(s.reqs[s.inbox[t][i]]) = e.k
+                                                            /\ \A j \in 1..(i - 1) : Desc(s.reqs[s.inbox[t][j]]) # e.k
+               r == s.inbox[t][pos] q == s.reqs[r]
                b == IF t \in B THEN t ELSE BootBroker(t)
-               s1 == [s EXCEPT !.inbox[t] = Tail(@)]
+               s1 == [s EXCEPT !.inbox[t] = SubSeq(@, 1, pos - 1) \o SubSeq(@, pos + 1, Len(@))]
                s2 == CASE q.kind = "meta"    -> [s1 EXCEPT !.reqs[r].view = ViewOf(s, q.topics, e.x)]
                        [] q.kind = "coord"   -> [s1 EXCEPT !.reqs[r].codes = <<IF e.x # 0 THEN e.x ELSE IF s.up[s.coord] THEN 0 ELSE 15>>,
                                                            !.reqs[r].view = [coord |-> s.coord, gen |-> s.gen[s.coord]]]
@@ -463,8 +471,8 @@ PLs == {<<tp>> : tp \in TPs} \cup ({<<x, y>> : x, y \in TPs} \ {<<x, x>> : x \in
     \cup {<<<<"a", 0>>, <<"b", 0>>, <<"a", 1>>>>}
 
 \* event classes (kept apart: their argument x has a different type in each)
-EvO(a, t, x, pl) == {[a |-> a, op |-> 0, t |-> t, x |-> x, pl |-> pl, ord |-> o, bord |-> bo] : o \in Perms(B), bo \in Perms(Boot)}
-Ev1(a, t, x, pl) == {[a |-> a, op |-> 0, t |-> t, x |-> x, pl |-> pl, ord |-> <<1, 2, 3>>, bord |-> <<11, 12>>]}
+EvO(a, t, x, pl) == {[a |-> a, op |-> 0, t |-> t, x |-> x, pl |-> pl, ord |-> o, bord |-> bo, k |-> <<>>] : o \in Perms(B), bo \in Perms(Boot)}
+Ev1(a, t, x, pl) == {[a |-> a, op |-> 0, t |-> t, x |-> x, pl |-> pl, ord |-> <<1, 2, 3>>, bord |-> <<11, 12>>, k |-> <<>>]}
 EvMeta    == UNION {EvO("CallMeta", 0, T, <<>>) : T \in MetaSet}
 EvProduce == UNION {EvO("CallProduce", 0, <<ak, foe>>, pl) : ak \in AckSet, foe \in FoeSet, pl \in PLSet}
 EvInt     == EvO("CallCommit", 0, 0, <<>>)
